@@ -601,6 +601,56 @@ pub fn restore(path: &Path) -> Result<VRestored, String> {
     });
     batches.sort_by_key(|b| b.first().map(|t| (t.job, t.task)));
 
+    // What `bootstrap::start_server` does with the restored queues: the autoalloc state is created
+    // with the restored id counter and every restored queue is re-added under its OLD id; the id the
+    // next NEW queue would get is what the restart really hands out (C11: it must not be a used one).
+    let queue_id_counter = {
+        use crate::server::autoalloc::verif_api as aa;
+        struct NoHandler;
+        impl aa::QueueHandler for NoHandler {
+            fn submit_allocation(
+                &mut self,
+                _queue_id: crate::server::autoalloc::QueueId,
+                _queue_info: &crate::server::autoalloc::QueueInfo,
+                _worker_count: u64,
+                _mode: aa::SubmitMode,
+            ) -> std::pin::Pin<Box<dyn std::future::Future<Output = crate::server::autoalloc::AutoAllocResult<aa::AllocationSubmissionResult>>>> {
+                unreachable!()
+            }
+            fn get_status_of_allocations(
+                &self,
+                _allocations: &[&crate::server::autoalloc::Allocation],
+            ) -> std::pin::Pin<Box<dyn std::future::Future<Output = crate::server::autoalloc::AutoAllocResult<aa::AllocationStatusMap>>>> {
+                unreachable!()
+            }
+            fn remove_allocation(
+                &self,
+                _allocation: &crate::server::autoalloc::Allocation,
+            ) -> std::pin::Pin<Box<dyn std::future::Future<Output = crate::server::autoalloc::AutoAllocResult<()>>>> {
+                unreachable!()
+            }
+        }
+        let mk = |params: &QueueParameters, res: Option<ResourceDescriptor>| {
+            aa::AllocationQueue::new(
+                crate::server::autoalloc::QueueInfo::new(params.clone()),
+                params.name.clone(),
+                Box::new(NoHandler),
+                aa::RateLimiter::new(aa::SUBMISSION_DELAYS.to_vec(), aa::MAX_SUBMISSION_FAILS, aa::max_allocation_fails()),
+                res,
+            )
+        };
+        let mut aa_state = aa::AutoAllocState::new(queue_id_counter);
+        let readd = std::panic::catch_unwind(std::panic::AssertUnwindSafe(|| {
+            for q in &queues {
+                aa_state.add_queue(mk(&q.params, q.worker_resources.clone()), Some(q.queue_id));
+            }
+            aa_state.add_queue(mk(&queue_params(0), None), None)
+        }));
+        match readd {
+            Ok(id) => id,
+            Err(_) => return Err("re-adding the restored queues panicked".to_string()),
+        }
+    };
     let mut qs: Vec<(u32, Option<u32>)> = queues
         .iter()
         .map(|q| (q.queue_id, q.worker_resources.as_ref().map(descriptor_cpus)))
